@@ -821,7 +821,10 @@ class Gen:
         elif kind in ("struct", "enum"):
             text = re.sub(r"\bpub\s*\([^)]*\)\s+(%s)\b" % kind, r"pub \1", text, count=1)
         text = self.local_subs(text, d, log)
-        if kind == "const":
+        if kind == "const" and re.search(r":\s*&\s*str\b", text):
+            text = re.sub(r":\s*&\s*str\b", ": &'static str", text, count=1)
+            bump(log, "R15b const type `&str` spelled `&'static str` (the elided lifetime of a const)")
+        if kind == "const" and any(k_ == "spec:" for k_, a_, l_ in getattr(d, "subs", [])):
             # R15: `const N: T = E;` -> `exec const N: T <contract> { E }` (Verus consts are dual-mode unless marked exec)
             spec = "\n".join("\n".join(lines) for k_, a_, lines in getattr(d, "subs", []) if k_ == "spec:")
             m = re.match(r"(?s)(.*?)\bconst\s+(\w+)\s*:\s*(.*?)\s*=\s*(.*);\s*$", text.strip())
